@@ -19,23 +19,12 @@ POLY_TAC = ("by\n  simp only [{defs}, Scalar.npow, Scalar.sq, lit_real, Nat.cast
 # --- branching / transcendental kernels (C01): unfold both sides over ℝ, turn the Bool tests into propositions,
 # split every `if`, close each leaf by rfl / ring1 / contradiction of linear conditions.  Robust to renamings,
 # re-association / commutation of arithmetic and to reordering of branches; see harness/props/c01.py (TAST_NOTE).
-BRANCH_HDR = ("import Mathlib.Tactic.Ring\nimport Mathlib.Tactic.Linarith\nimport Mathlib.Tactic.SplitIfs\n"
-              "import OrixProofs.Lemmas.RealScalar\nimport OrixModel\nimport OrixGen.Kernels\n"
+BRANCH_HDR = ("import OrixProofs.Lemmas.ConvKernTac\nimport OrixModel\nimport OrixGen.Kernels\n"
               "set_option linter.unusedSimpArgs false\nset_option linter.unusedTactic false\n"
-              "set_option linter.unreachableTactic false\n"
-              "/- GENERATED obligation: generated kernel = hand-written code-shaped model (T-ast). Do not edit. -/\n"
-              "namespace Orix.GenAudit\nopen Orix\n"
+              "set_option linter.unreachableTactic false\nset_option linter.unusedVariables false\n"
               "set_option maxRecDepth 20000\n"
-              "macro \"kern_leaf\" : tactic =>\n"
-              "  `(tactic| (simp only [List.cons.injEq, and_true, true_and] <;> (try (repeat' apply And.intro)) <;>\n"
-              "      (first | rfl | ring1 | (exfalso; linarith) | (simp only [dec_real]; ring1) | (ring_nf; done)\n"
-              "             | (simp only [dec_real]; ring_nf; done))))\n"
-              "macro \"kern_close\" : tactic =>\n"
-              "  `(tactic| first\n"
-              "      | (split_ifs <;> simp only [List.cons.injEq, and_true, true_and] <;> (try (repeat' apply And.intro)) <;>\n"
-              "          (first | rfl | ring1))\n"
-              "      | (ring_nf; split_ifs <;> kern_leaf)\n"
-              "      | (split_ifs <;> kern_leaf))\n")
+              "/- GENERATED obligation: generated kernel = hand-written code-shaped model (T-ast). Do not edit. -/\n"
+              "namespace Orix.GenAudit\nopen Orix\n")
 BRANCH_SIMPS = ("Scalar.npow, lt_real, le_real, beq_real, abs_real, lit_real, Nat.cast_ofNat, Nat.cast_one, Nat.cast_zero, "
                 "Bool.and_eq_true, Bool.not_eq_true', Bool.not_eq_eq_eq_not, Bool.not_true, Quat.toList, Vec3.toList, "
                 "Euler.toList, AxAng.toList, Quat.neg, Quat.divS, Conv.eps9, Conv.eps8, Conv.half")
